@@ -61,6 +61,7 @@ Definition promote (x y r : num) : num :=
 Definition n_max (x y : num) : num := promote x y (if is_nan x then x else if n_ltb y x then x else y).
 Definition n_min (x y : num) : num := promote x y (if is_nan x then x else if n_ltb x y then x else y).
 Definition is_zero (x : num) : bool := n_eqb x (NI 0).
+Definition sf_finite (f : sf) : bool := match f with S754_zero _ | S754_finite _ _ _ => true | _ => false end.
 
 (* x ** n for a non-negative integer n, by repeated multiplication (exact for integers; for reals
    exact whenever every intermediate product is representable) *)
@@ -435,7 +436,8 @@ Definition py_call (m : string) (a : val) : res val :=
 Fixpoint eval_ir (T : tables) (args : string -> option val) (i : ir) : res val :=
   match i with
   | ILitI z => Ok (VS false (NI z))
-  | ILitR f _ => Ok (VS false (NR f))
+  | ILitR f _ => if sf_finite f then Ok (VS false (NR f))
+                 else Err           (* repr(inf) / repr(nan) is the bare name inf / nan: NameError *)
   | IVar n => match args n with Some v => Ok v | None => Err (* NameError *) end
   | IBin op l r =>
       bind (eval_ir T args l) (fun a => bind (eval_ir T args r) (fun b =>
@@ -585,24 +587,27 @@ Fixpoint interp (rho : env) (e : expr) : res val :=
 (* ------------------------------------------------------------------ one evaluation site *)
 (* "try compiled, on exception fall back": memo = what compile_expr returned when the node was
    first evaluated (under whatever bindings held then) *)
-Definition site (T : tables) (guard : bool) (memo : option compiled) (rho : env) (e : expr) : res val :=
+Definition site (T : tables) (guard catch_all : bool) (memo : option compiled) (rho : env) (e : expr) : res val :=
   match memo with
   | None => interp rho e
   | Some c => match run_compiled T guard c rho with
               | Ok v => Ok v
-              | Err => interp rho e
+              | Err => if catch_all then interp rho e
+                       else Err     (* `except <some classes>`: an exception the clause does not name propagates *)
               | Unm => Unm
               end
   end.
 
-(* a rebinding history: the node is compiled at its first evaluation and the memo is kept *)
-Fixpoint run_history (T : tables) (guard : bool) (memo : option (option compiled)) (e : expr)
+(* a rebinding history: the node is compiled at its first evaluation and the memo is kept.  compile is a
+   function of (tables, bindings, expression) only: sound iff compile_expr keeps no state across calls
+   (regenerated flag compile_is_stateless, consumed in Properties.v) *)
+Fixpoint run_history (T : tables) (guard catch_all : bool) (memo : option (option compiled)) (e : expr)
          (h : list env) : list (res val) :=
   match h with
   | [] => []
   | rho :: h' =>
       let m := match memo with Some m => m | None => compile T rho e end in
-      site T guard m rho e :: run_history T guard (Some m) e h'
+      site T guard catch_all m rho e :: run_history T guard catch_all (Some m) e h'
   end.
 
 (* ------------------------------------------------------------------ the domain of the equivalence theorem *)
